@@ -554,6 +554,23 @@ def run_default(case):
   return R(None, True, (order, style))
 
 
+def gen_types(run):
+  from ..routes import struct_params
+  try:
+    T = route_table()
+  except Exception:
+    T = {}
+  for name, ent in T.items():
+    if struct_params(ent[1]):
+      yield (name,)
+
+
+def run_types(case):
+  from ..routes import struct_params, types_agree
+  ent = route_table()[case[0]]
+  return types_agree(case[0], ent[0], ent[1], ent[2], struct_params(ent[1]))
+
+
 KINDS = OrderedDict([
   ("ola", Kind(gen_ola, run_ola, chunk=300, rule="overlap_add.list configurations; non-trivial: overlap or window")),
   ("reconstruction", Kind(gen_recon, run_recon, chunk=50, rule="blocks -> overlap-add; non-trivial: signal longer than a block")),
@@ -562,4 +579,6 @@ KINDS = OrderedDict([
                        rule="each function with every documented parameter set: all positional / all keyword / every split must agree")),
   ("ola-default", Kind(gen_default, run_default, chunk=1,
                        rule="order of choosing overlap_add.default and building / calling the processor x style x (size, hop)")),
+  ("param-types", Kind(gen_types, run_types, chunk=1,
+                       rule="structural integer parameters given as integral float / Fraction / bool: same result wherever the type is accepted")),
 ])
